@@ -384,20 +384,42 @@ func (cfg *Config) replaceElems(repl *syntax.Replace, elems []string) ([]string,
 	if err != nil {
 		return nil, err
 	}
-	if orig == "" {
+	// An unquoted # or % starting the pattern anchors it to the start or
+	// the end of the value, unless all matches are being replaced.
+	var anchor byte
+	if !repl.All && orig != "" {
+		if lit, ok := repl.Orig.Parts[0].(*syntax.Lit); ok && lit.Value != "" && lit.Value[0] == orig[0] {
+			switch orig[0] {
+			case '#', '%':
+				anchor, orig = orig[0], orig[1:]
+			}
+		}
+	}
+	if orig == "" && anchor == 0 {
 		return elems, nil // nothing to replace
 	}
 	with, err := Literal(cfg, repl.With)
 	if err != nil {
 		return nil, err
 	}
+	expr, err := pattern.Regexp(orig, 0)
+	if err != nil {
+		return elems, nil
+	}
+	switch anchor {
+	case '#':
+		expr = "^(?:" + expr + ")"
+	case '%':
+		expr = "(?:" + expr + ")$"
+	}
+	rx := regexp.MustCompile(expr)
 	n := 1
 	if repl.All {
 		n = -1
 	}
 	out := make([]string, len(elems))
 	for i, elem := range elems {
-		locs := findAllIndex(orig, elem, n)
+		locs := rx.FindAllStringIndex(elem, n)
 		sb := cfg.strBuilder()
 		last := 0
 		for _, loc := range locs {
